@@ -35,17 +35,17 @@ type anchorErr struct{ what string }
 
 // Ctx is the state of one property run.
 type Ctx struct {
-	P        *Prog
-	Prop     string
-	Tier     string
-	rule     string
-	Obls     []Obl
-	funcs    map[*Func]bool // functions examined
-	sites    int            // call sites / program points examined
-	paths    int            // path queries decided
-	pins     map[string][2]int
-	ruleDocs map[string]string
-	notes    []string
+	P         *Prog
+	Prop      string
+	Tier      string
+	rule      string
+	Obls      []Obl
+	funcs     map[*Func]bool // functions examined
+	sites     int            // call sites / program points examined
+	paths     int            // path queries decided
+	pins      map[string][2]int
+	ruleDocs  map[string]string
+	notes     []string
 	le        *lockEnv
 	addrTaken map[*types.Func]bool
 	cr        *callResolver
@@ -74,6 +74,51 @@ func (c *Ctx) Rule(id, doc string, body func()) {
 	if len(c.Obls) == before {
 		c.add(id, "vacuous", "", vPin, "rule produced no obligation (would pass vacuously)")
 	}
+}
+
+// Import makes a discipline that is decided by another property's rule an obligation of this property too: the
+// same code often carries several properties (the idle timer protects both "a call is answered" and "no timer is left
+// behind"), and a change written against one of them must fail that property's own check. The source property's rules
+// are run once per program in a private context; the obligations of fromRule whose key satisfies keep are copied under
+// the new rule id, verdicts included.
+func (c *Ctx) Import(newRule, doc, fromProp, fromRule string, keep func(key string) bool) {
+	c.Rule(newRule, doc+" (decided by "+fromRule+" of "+fromProp+")", func() {
+		sub := c.P.subCtx(fromProp, c.Tier)
+		n := 0
+		for _, o := range sub.Obls {
+			if strings.HasSuffix(o.Rule, "-setup") {
+				c.add(newRule, o.Key, o.Pos, o.Verdict, o.Detail)
+				continue
+			}
+			if o.Rule != fromRule || strings.HasPrefix(o.Key, "pin:") || (keep != nil && !keep(o.Key)) {
+				continue
+			}
+			n++
+			c.sites++
+			c.add(newRule, o.Key, o.Pos, o.Verdict, o.Detail)
+		}
+		if n == 0 {
+			c.add(newRule, "import:"+fromRule, "", vAnchor, "no obligation of "+fromRule+" matched the import filter: the rule it relied on changed")
+		}
+	})
+}
+
+// subCtx runs (once) the quick rules of another property on this program.
+func (p *Prog) subCtx(prop, tier string) *Ctx {
+	if p.sub == nil {
+		p.sub = map[string]*Ctx{}
+	}
+	if s, ok := p.sub[prop]; ok {
+		if s == nil {
+			panic(anchorErr{"cyclic import of " + prop})
+		}
+		return s
+	}
+	p.sub[prop] = nil
+	s := newCtx(p, prop, tier)
+	guarded(s, prop, func() { registry[prop].rules(s) })
+	p.sub[prop] = s
+	return s
 }
 
 func (c *Ctx) add(rule, key, pos, verdict, detail string) {
